@@ -202,7 +202,7 @@ func genC16Plan(r *zsim.Rng) *c16Plan {
 	p.Cols, p.Rows = r.Range(40, 120), r.Range(10, 40)
 	p.Lines = lineSpec{N: r.Range(0, 40), Seed: r.Seed53(), Shape: r.Intn(4)}
 	p.Multi = -1
-	p.Addr = pick(r, "localhost:0", "127.0.0.1:6266", "6266", "0.0.0.0:6266", "192.168.1.5:0")
+	p.Addr = pick(r, "localhost:0", "127.0.0.1:6266", "6266", "0.0.0.0:6266", "192.168.1.5:0", ":6266", "localhost:6266")
 	p.UseKey = r.Chance(3, 5)
 	p.Unsafe = r.Chance(1, 8)
 	p.UnsafeFirst = !p.Unsafe && r.Chance(1, 6)
@@ -266,7 +266,8 @@ func runC16(c *runCtx) {
 			os.Unsetenv("FZF_API_KEY")
 		}
 	}()
-	local := plan.Addr == "6266" || strings.HasPrefix(plan.Addr, "localhost") || strings.HasPrefix(plan.Addr, "127.0.0.1")
+	// a bare port and ":port" mean localhost (man page: "--listen[=[ADDR:]PORT]", default address localhost)
+	local := plan.Addr == "6266" || strings.HasPrefix(plan.Addr, ":") || strings.HasPrefix(plan.Addr, "localhost") || strings.HasPrefix(plan.Addr, "127.0.0.1")
 	results := make([]*httpResult, len(plan.HTTP))
 	pending := 0
 	sysEventHandlers["http"] = func(r *sysRun, ev *sysEvent) {
@@ -377,6 +378,26 @@ func runC16(c *runCtx) {
 		c.count("probe.remote_refused", 1)
 		commonExitChecks(r)
 		return
+	}
+	// an execute-silent started by a POST may outlast the settle horizon (its process just sits there for
+	// seconds): the actions chained behind it only run when it ends
+	for k := 0; k < 20 && ok && !r.done; k++ {
+		alive := false
+		for _, p := range r.os.Snapshot() {
+			alive = alive || p.Alive
+		}
+		if !alive {
+			break
+		}
+		r.settle(10)
+	}
+	if local {
+		// what is treated as local must be bound to the loopback interface only
+		for _, a := range nw.Listens {
+			if !strings.HasPrefix(a, "localhost:") && !strings.HasPrefix(a, "127.0.0.1:") {
+				c.violate("c16.bind", "--listen %s is handled as a local address (no key demanded, all actions allowed) but the listener was opened on %q", plan.Addr, a)
+			}
+		}
 	}
 	st := r.state()
 	if ok && !r.done {
